@@ -759,7 +759,7 @@ def shards(tier, seed):
         out.append({"kind": "lme", "ks": ks[lo:lo + 10]})
     for nf, nv, alpha in batches:
         nb = -(-n_tables(nf, nv, alpha) * math.factorial(nv) // BATCH)
-        step = 40
+        step = 20
         for lo in range(0, nb, step):
             out.append({"kind": "const_batch", "nf": nf, "nv": nv, "alpha": alpha, "lo": lo, "hi": min(nb, lo + step)})
     return out
